@@ -256,4 +256,121 @@ def ExtraPush (d d' : Disp) : Prop :=
   | .okOut _ _ => True
   | .newFrame _ _ => True
 
+theorem simple_completion (p : Program) (f : Frame) (st : St) (e : Expr)
+    (hs : Simple e = true) (hu : e.used = false) (hd : doneSub st e = true) :
+    ExtraPush (dispatch p f st e) (dispatch p f st (withUsed true e)) := by
+  cases e <;> simp [Simple] at hs <;> simp [Expr.used] at hu <;> subst hu
+  case int => simp [dispatch, withUsed, ExtraPush, Frame.pushVIf, Expr.used]; exact ⟨_, rfl⟩
+  case str => simp [dispatch, withUsed, ExtraPush, Frame.pushVIf, Expr.used]; exact ⟨_, rfl⟩
+  case var =>
+    simp only [dispatch, withUsed, Expr.used]
+    split <;> simp [ExtraPush, Frame.pushVIf] <;> exact ⟨_, rfl⟩
+  case lambda => simp [dispatch, withUsed, ExtraPush, Frame.pushVIf, Expr.used]; exact ⟨_, rfl⟩
+  case binop =>
+    have : st = .E := by cases st <;> simp [doneSub] at hd <;> rfl
+    subst this
+    simp only [dispatch, withUsed, Expr.used]
+    repeat' split
+    all_goals (simp [ExtraPush, Frame.pushVIf] at *)
+    all_goals (first | exact ⟨_, rfl⟩ | skip)
+  case letE =>
+    have : st = .E := by cases st <;> simp [doneSub] at hd <;> rfl
+    subst this
+    simp only [dispatch, withUsed, Expr.used]
+    repeat' split
+    all_goals (simp [ExtraPush, Frame.pushVIf] at *)
+    all_goals (first | exact ⟨_, rfl⟩ | skip)
+  case assign =>
+    have : st = .E := by cases st <;> simp [doneSub] at hd <;> rfl
+    subst this
+    simp only [dispatch, withUsed, Expr.used]
+    repeat' split
+    all_goals (simp [ExtraPush, Frame.pushVIf] at *)
+    all_goals (first | exact ⟨_, rfl⟩ | skip)
+  case update =>
+    have : st = .E := by cases st <;> simp [doneSub] at hd <;> rfl
+    subst this
+    simp only [dispatch, withUsed, Expr.used]
+    repeat' split
+    all_goals (simp [ExtraPush, Frame.pushVIf] at *)
+    all_goals (first | exact ⟨_, rfl⟩ | skip)
+  case list =>
+    have : st = .E := by cases st <;> simp [doneSub] at hd <;> rfl
+    subst this
+    simp only [dispatch, withUsed, Expr.used]
+    repeat' split
+    all_goals (simp [ExtraPush, Frame.pushVIf] at *)
+    all_goals (first | exact ⟨_, rfl⟩ | skip)
+  case tuple =>
+    have : st = .E := by cases st <;> simp [doneSub] at hd <;> rfl
+    subst this
+    simp only [dispatch, withUsed, Expr.used]
+    repeat' split
+    all_goals (simp [ExtraPush, Frame.pushVIf] at *)
+    all_goals (first | exact ⟨_, rfl⟩ | skip)
+
+theorem simple_noncompleting (p : Program) (f : Frame) (st : St) (e : Expr)
+    (hs : Simple e = true) (hd : doneSub st e = false) :
+    unflagD e.id (dispatch p f st (withUsed true e)) = unflagD e.id (dispatch p f st e) := by
+  have hne : (st != St.E) = true := by cases st <;> simp [doneSub] at hd ⊢
+  cases e <;> simp [Simple] at hs
+  case int => simp [doneSub] at hd
+  case str => simp [doneSub] at hd
+  case var => simp [doneSub] at hd
+  case lambda => simp [doneSub] at hd
+  case binop id u op l r =>
+    simp only [dispatch, withUsed, hne, if_true, unflagD, unflagF_pushE, Expr.id]
+    have := unflag_marked (.binop id u op l r) true
+    simp only [withUsed, Expr.id] at this
+    rw [this]
+  case letE id u d x =>
+    simp only [dispatch, withUsed, hne, if_true, unflagD, unflagF_pushE, Expr.id]
+    have := unflag_marked (.letE id u d x) true
+    simp only [withUsed, Expr.id] at this
+    rw [this]
+  case assign id u n x =>
+    simp only [dispatch, withUsed, hne, if_true, unflagD, unflagF_pushE, Expr.id]
+    have := unflag_marked (.assign id u n x) true
+    simp only [withUsed, Expr.id] at this
+    rw [this]
+  case update id u a n x =>
+    simp only [dispatch, withUsed, hne, if_true, unflagD, unflagF_pushE, Expr.id]
+    have := unflag_marked (.update id u a n x) true
+    simp only [withUsed, Expr.id] at this
+    rw [this]
+  case list id u items =>
+    simp only [dispatch, withUsed, hne, if_true, unflagD, unflagF_foldl, unflagF_pushE, Expr.id]
+    have := unflag_marked (.list id u items) true
+    simp only [withUsed, Expr.id] at this
+    rw [this]
+  case tuple id u items =>
+    simp only [dispatch, withUsed, hne, if_true, unflagD, unflagF_foldl, unflagF_pushE, Expr.id]
+    have := unflag_marked (.tuple id u items) true
+    simp only [withUsed, Expr.id] at this
+    rw [this]
+
+theorem doneSub_withUsed (u : Bool) (st : St) (e : Expr) : doneSub st (withUsed u e) = doneSub st e := by
+  cases e <;> rfl
+
+theorem marked_stop_reports (s : State) (f : Frame) (callers : List Frame) (st : St) (e : Expr)
+    (rest : List (St × Expr)) (f1 : Frame)
+    (hfr : s.frames = f :: callers) (hex : f.exprs = (st, withUsed true e) :: rest)
+    (hq : (s.interrupted || s.interruptAt.contains (s.ticks + 1)) = false)
+    (hl : limitReached s.tickLimit (s.ticks + 1) = false)
+    (hsl : limitExceeded s.stackLimit s.frames.length = false)
+    (hstop : s.stopAt = some e.id)
+    (hs : Simple e = true) (hu : e.used = false) (hd : doneSub st e = true)
+    (hplain : dispatch s.prog { f with exprs := rest } st e = .ok f1) :
+    ∃ v, dispatch s.prog { f with exprs := rest } st (withUsed true e) = .ok (f1.pushV v) ∧
+      fires dispatch s = some v := by
+  have hc := simple_completion s.prog { f with exprs := rest } st e hs hu hd
+  rw [hplain] at hc
+  obtain ⟨v, hv⟩ := hc
+  refine ⟨v, hv, ?_⟩
+  unfold fires
+  simp only [hfr, hex, hq, hl, Bool.false_eq_true, if_false]
+  rw [hfr] at hsl
+  simp only [hsl, Bool.false_eq_true, if_false, hstop, withUsed_id, beq_self_eq_true, if_true, hv]
+  simp [report, doneSub_withUsed, hd, Frame.pushV]
+
 end EvalUpTo
